@@ -50,7 +50,7 @@ def cases(rnd):
     out = []
     w, _ = G.rotvec(rnd, maxangle=math.pi - 1e-2)
     R, _ = G.rotation(rnd, rnd.choice(['zero', 'small', 'one', 'half_pi', 'generic', 'near_pi']))
-    T, _ = G.pose(rnd, rnd.choice(['zero', 'small', 'one', 'half_pi', 'generic', 'near_pi']), None, math.pi - 1e-2)
+    T, _ = G.pose(rnd, rnd.choice(['zero', 'small', 'one', 'half_pi', 'generic', 'near_pi', 'tiny', 'band_lo', 'band_hi']), None, math.pi - 1e-2)
     # exact half turns (trace exactly -1): each of the three sub-branches of the logarithm's angle-pi case, signs and axis planes
     k_ = rnd.random()
     if k_ < 0.25:
